@@ -107,10 +107,15 @@ ATOMS = ["1", "-1", "0", "9223372036854775807", "-9223372036854775808", "1u", "0
          '"a"', '""', '"1"', 'b"a"', r'b"Ā"', r'b"\U00000041"', r'b"\xff"', r'"\U0001F431"', r'"\U00110000"', r'"\UFFFFFFFF"', r'b"\UFFFFFFFF"', r'"\ud800"', "true", "false", "null", "[]", "[1]", '[1, "a"]', "[[1]]", "{}", '{"a": 1}', "{1: 2}",
          "{[1]: 2}", "{1.5: 1}", "{null: 1}", "{1: 2, 1: 3}", '{"a": 1/0}', "[1/0]", 'timestamp("2020-01-01T00:00:00Z")', 'timestamp("0001-01-01T00:00:00Z")', 'timestamp("9999-12-31T23:59:59Z")',
          'duration("1s")', 'duration("-1s")', "int", "type", "type(1)", "type(type(1)) == type", "vi", "vs", "vl", "vm", "vn", "vb", "vd", "vby", "vts", "vdur", "vmissing", "vu", '"+14:00"', '"America/Nowhere"', '"("',
-         '"999999999999h"', "9999999999999", "x", "T{a: 1}", "T{a: 1, a: 2}", "vm{a: 1}", "a.b.c", ".vi", ".vmissing", "[1, 2].map(package, package + 1)", "[1, 2].exists(get, get == 1)", "[1].map(clone, clone)", ".size(vl)", ".nosuch(1)", "vmn", "vmn.n", '{"a": null}.a', '{"f": null}', "vm.k", "vm.nokey"]
+         '"999999999999h"', "9999999999999", "x", "T{a: 1}", "T{a: 1, a: 2}", "vm{a: 1}", "a.b.c", ".vi", ".vmissing", "[1, 2].map(package, package + 1)", "[1, 2].exists(get, get == 1)", "[1].map(clone, clone)", ".size(vl)", ".nosuch(1)", "vmn", "vmn.n", '{"a": null}.a', '{"f": null}', "vm.k", "vm.nokey",
+         # maps whose keys are of different kinds (no order between them), selected / indexed by a key that is missing
+         '{1: "x", "b": 2}', '{1: "x", "b": 2}.c', 'has({true: 1, 2: 2}.c)', '{1u: 1, "b": 2}["c"]', "vmx", "vmx.c", "has(vmx.c)",
+         # non-finite doubles where an index / a count is expected
+         "1.0 / 0.0", "0.0 / 0.0", "[7, 8, 9][1.0 / 0.0]", "[1][0.0 / 0.0]", "vinf"]
 ACT = {"vi": ct.IntType(7), "vs": ct.StringType("seven"), "vl": ct.ListType([ct.IntType(1), ct.StringType("x")]), "vm": ct.MapType({ct.StringType("k"): ct.IntType(1)}),
        "vn": None, "vb": ct.BoolType(True), "vd": ct.DoubleType(2.5), "vby": ct.BytesType(b"\xff"), "vu": ct.UintType(3),
-       "vts": ct.TimestampType("2021-02-03T04:05:06Z"), "vdur": ct.DurationType("90s"), "vmn": ct.MapType({ct.StringType("n"): None, ct.StringType("f"): None})}
+       "vts": ct.TimestampType("2021-02-03T04:05:06Z"), "vdur": ct.DurationType("90s"), "vmn": ct.MapType({ct.StringType("n"): None, ct.StringType("f"): None}),
+       "vmx": ct.MapType({ct.IntType(1): ct.StringType("x"), ct.StringType("b"): ct.IntType(2), ct.UintType(7): ct.IntType(3)}), "vinf": ct.DoubleType("inf")}
 BIN = ["||", "&&", "<", "<=", ">", ">=", "==", "!=", "in", "+", "-", "*", "/", "%"]
 METHODS0 = ["size", "getFullYear", "getMonth", "getDate", "getDayOfMonth", "getDayOfWeek", "getDayOfYear", "getHours", "getMinutes", "getSeconds", "getMilliseconds", "nosuch"]
 METHODS1 = ["contains", "startsWith", "endsWith", "matches", "getHours", "getFullYear", "getDayOfWeek", "getDate", "getMonth", "getMinutes", "getSeconds", "getMilliseconds", "getDayOfYear", "getDayOfMonth", "nosuch"]
